@@ -300,7 +300,12 @@ def b_str(I, a, k):
         return x
     if isinstance(x, (int, float, bool, type(None))):
         return str(x)
-    return SStr(I.st.fresh_name('str'), nonempty=True)
+    r = SStr(I.st.fresh_name('str'), nonempty=True)
+    if Mo.is_list(x):
+        r.prefix = 'array(' if x.nd else '['          # str / repr of a list or array: unknown text with a known first character
+    elif isinstance(x, tuple):
+        r.prefix = '('
+    return r
 
 
 def b_iter(I, a, k):
